@@ -211,10 +211,13 @@ def history(i0: int, q0: int, i1: int, q1: int, i2: int, q2: int, i3: int, q3: i
     ops = hx.P['ops']            # string over a(dd) r(emove) t(imestep)
     m = LogModel()
     pool = _pool(m)
+    late = hx.P.get('late_start')        # one system of the pool only starts at timestep 2 (registered long before it is due)
+    if late is not None:
+        pool[late].start = 2
     idx = [i0, i1, i2, i3, i4]
     if 'idx' in hx.P:                  # targeted histories fix which systems are used; the solver chooses the priorities
         idx = list(hx.P['idx']) + [0] * 5
-    pr = [q0, q1, q2, q3, q4]
+    pr = [q0, q1, q2, q3, q4, q2, q3, q4]
     ref = []                     # reference model: registered systems in execution order
     for k, op in enumerate(ops):
         obj = pool[idx[k]]
@@ -277,23 +280,28 @@ def history(i0: int, q0: int, i1: int, q1: int, i2: int, q2: int, i3: int, q3: i
                     pass
         else:
             del m.log[:]
+            t_now = m.systems.timestep
             m.execute()
-            if m.log != [s.id for s in ref]:
-                return hx.end(hx.fail("timestep order", step=k, got=list(m.log), exp=[s.id for s in ref]))
-        if not hx.same_seq(m.systems.execution_queue, ref):
+            due = [s.id for s in ref if s.start <= t_now]
+            if m.log != due:
+                return hx.end(hx.fail("timestep order", step=k, timestep=t_now, got=list(m.log), exp=due))
+        if late is None and not hx.same_seq(m.systems.execution_queue, ref):
             return hx.end(hx.fail("queue differs from reference model", step=k,
                                   got=[(s.id, s.priority) for s in m.systems.execution_queue],
                                   exp=[(s.id, s.priority) for s in ref]))
         if sorted(m.systems.systems) != sorted(s.id for s in ref):
             return hx.end(hx.fail("registry differs from reference model", step=k))
     del m.log[:]
+    t_now = m.systems.timestep
     m.execute()
-    if m.log != [s.id for s in ref]:
-        return hx.end(hx.fail("final timestep order", got=list(m.log), exp=[s.id for s in ref]))
+    if m.log != [s.id for s in ref if s.start <= t_now]:
+        return hx.end(hx.fail("final timestep order", timestep=t_now, got=list(m.log), exp=[s.id for s in ref if s.start <= t_now]))
     return hx.end(True)
 
 
 def _hist_labels(part):
+    if "late_start" in part:
+        return ["added"]
     ops = part["ops"]
     na = ops.count('a')
     out = []
@@ -331,6 +339,7 @@ def _histories(k):
 # timestep; removal and re-registration of the same object among equal priorities
 _TARGETED = [{"ops": "atra", "idx": [0, 0, 0, 1]}, {"ops": "atra", "idx": [0, 0, 0, 0]}, {"ops": "aatra", "idx": [0, 1, 0, 1, 1]},
              {"ops": "aarat", "idx": [0, 1, 1, 1, 0]}, {"ops": "aatra", "idx": [1, 2, 0, 2, 0]}, {"ops": "atrat", "idx": [2, 0, 2, 3, 0]},
+             {"ops": "aattt", "idx": [0, 1, 0, 0, 0], "late_start": 0}, {"ops": "aatrtat", "idx": [1, 0, 0, 1, 0, 1, 0], "late_start": 0},
              {"ops": "aaca", "idx": [0, 1, 0, 0]}, {"ops": "aacat", "idx": [0, 1, 0, 0, 0]}, {"ops": "aaaca", "idx": [0, 1, 2, 1, 1]}]
 ENC_ADD = (SystemManager.add_system,)
 BOUNDS = {
